@@ -30,9 +30,9 @@ Print Assumptions C25_interned_strings_roundtrip.
 (* For ALL requests (any tenants, series, labels sharing or not sharing
    symbols, empty lists, samples, histograms, exemplars): decoding the encoded
    request yields the request with exactly one thing erased — the histograms'
-   custom values, which the Cap'n Proto schema has no field for. (Both sides
-   are None, i.e. undefined, exactly for malformed histograms whose count and
-   zero-count disagree on int/float.) *)
+   custom values, which the Cap'n Proto schema has no field for. Histograms
+   are read as the protobuf path reads them (float iff the count is a float;
+   a zero count that is unset or of the other type reads as 0). *)
 Theorem C25_request_roundtrip_partial : forall req,
   decode (encode req) = spec_request (erase_request req).
 Proof. exact request_roundtrip. Qed.
@@ -51,11 +51,21 @@ Theorem C25_custom_values_refuted :
 Proof. exact custom_values_lost. Qed.
 Print Assumptions C25_custom_values_refuted.
 
-(* ... and a float histogram whose zero_count oneof is unset cannot be decoded
-   (the generated union accessor panics on the peer). *)
-Theorem C25_float_histogram_without_zero_count_refuted : decode (encode witness_union) = None.
-Proof. exact float_histogram_without_zero_count_undefined. Qed.
-Print Assumptions C25_float_histogram_without_zero_count_refuted.
+(* Decoding never panics, whatever message the peer receives (also one from an
+   encoder that leaves the zero count on the other arm of the union). *)
+Theorem C25_decode_never_panics : forall w, exists out, decode w = Some out.
+Proof. exact decode_total. Qed.
+Print Assumptions C25_decode_never_panics.
+
+(* Before the repair a float histogram whose zero_count oneof is unset could
+   not be decoded (the generated accessor panicked); it now decodes to its
+   protobuf-path reading, even from the old encoder's message. *)
+Theorem C25_unguarded_union_refuted :
+  dec_hist_old (enc_hist_old witness_union_hist) = None
+  /\ dec_hist (enc_hist witness_union_hist) = spec_hist witness_union_hist
+  /\ dec_hist (enc_hist_old witness_union_hist) <> None.
+Proof. exact float_histogram_without_zero_count_old_undefined. Qed.
+Print Assumptions C25_unguarded_union_refuted.
 
 (* Non-vacuity: two tenants sharing the symbols "a" and "b"; the table holds them once. *)
 Example C25_nonvacuous :
